@@ -52,6 +52,11 @@ class Tree:
                 src += "pytest_plugins = %r\n" % ["ignored.first"]      # last assignment wins
                 self.tags.append("plugins:reassigned")
             src += "pytest_plugins = %s\n" % (repr(plugins[0]) if len(plugins) == 1 and rnd.random() < 0.4 else repr(list(plugins)))
+            if rnd.random() < 0.2:
+                # a later assignment whose value is not a string / list / tuple literal: the last assignment wins, and it
+                # names no module
+                src += "pytest_plugins = %s\n" % rnd.choice(["None", "plugin_names()", "[] + EXTRA_PLUGINS", "os.environ.get('PLUGS')"])
+                self.tags.append("plugins:dynamic-last")
         src += "\n"
         names = [self.uniq("fx_")] + list(extra_names)
         if rnd.random() < 0.35:
